@@ -98,6 +98,9 @@ class OpsMapModel(SetModel):
         if s["__kind__"] == "opsmap" and name == "get":
             k = zstr(eng.unopt(st, args[0]))
             return [("val", mk_opt(z3.Not(z3.Select(s["has"], k)), self.op_for(eng, st, s, k)), st)]
+        if s["__kind__"] == "opsmap" and name == "copy":
+            st.emit("ops_snapshot", held=st.ghost.get("ops_lock_held", 0) > 0)
+            return [("val", st.alloc("opsmap", dict(s)), st)]   # snapshot: same content (the model's map is a value)
         if s["__kind__"] == "opsmap" and name == "items":
             return [("val", st.alloc("opsitems", {"__kind__": "opsitems", "map": ref}), st)]
         if s["__kind__"] == "zset" and name == "issubset":
@@ -184,7 +187,8 @@ def under_completed_contract(chk):
         s.env["parent_id"] = eng_.sym_of_type("str | None", "parent_id", s)
         s.env.pop("parent", None)
     eng.loop_handlers[(q, "while", 0)] = LoopContract(chk, "C17.state.under_completed_context.loop", inv, havoc, desc="the answer for the operation equals the answer for the ancestor about to be examined")
-    for k, v, s in eng.run(fi, [self_, op], st=st):
+    static = "staticmethod" in fi.decorators
+    for k, v, s in eng.run(fi, [op, opsmap] if static else [self_, op], st=st):
         chk.paths += 1
         got = z3.BoolVal(v) if isinstance(v, bool) else zbool(v)
         chk.prove("C17.state.under_completed_context", s.pc, z3.And(z3.BoolVal(k == "val"), got == BA(k0)),
@@ -207,13 +211,19 @@ def track_flip(chk):
     opsmap = st.alloc("opsmap", dict(m, __kind__="opsmap"))
     has_helper = "_is_under_completed_context" in P.cls("state.ExecutionState").methods
     if has_helper:
+        helper_static = "staticmethod" in P.cls("state.ExecutionState").methods["_is_under_completed_context"].decorators
+
         def helper_summary(eng_, s_, args, kwargs):
-            return [("val", Sym("bool", BA(zstr(s_.get(args[1])["operation_id"]))), s_)]
+            op_ = args[0] if helper_static else args[1]
+            if helper_static and not (isinstance(args[1], Ref) and s_.get(args[1]).get("__kind__") == "opsmap"):
+                raise Unsupported("the ancestor walk is given something else than (a snapshot of) self.operations")
+            return [("val", Sym("bool", BA(zstr(s_.get(op_)["operation_id"]))), s_)]
         eng.summaries["state.ExecutionState._is_under_completed_context"] = helper_summary
     visited = new_zset(st, name="visited")
     v0 = st.get(visited)["arr"]
     status0 = fresh("enum", "replay_status", rs_cls)
-    self_ = st.alloc(P.cls("state.ExecutionState"), {"_replay_status_lock": st.alloc("opaque:Lock", {}), "_replay_status": status0, "_visited_operations": visited, "operations": opsmap})
+    self_ = st.alloc(P.cls("state.ExecutionState"), {"_replay_status_lock": st.alloc("opaque:Lock", {}), "_operations_lock": st.alloc("opaque:Lock", {}), "_replay_status": status0,
+                                                    "_visited_operations": visited, "operations": opsmap})
     oid = fresh("str", "operation_id")
     R = enum_sort(rs_cls)[1]
     S = enum_sort(s_cls)[1]
@@ -277,6 +287,8 @@ def run(chk):
     under_completed_contract(chk)
     track_flip(chk)
     is_replaying_contract(chk)
+    from . import lockset
+    lockset.lock_discipline(chk, "C17", ["_replay_status", "_visited_operations", "operations"])   # the map track_replay iterates is not changed under its feet
     CC.operation_methods(chk, "C17", want=("C17",))
     X.item_in_child_context(chk, "C17")
     X.replay_items(chk, "C17")
